@@ -273,3 +273,446 @@ Lemma in_items_key {A B} (l : list (A * B)) k v : In (k, v) l -> In k (map fst l
 Proof. intros H. apply in_map_iff. exists (k, v). split; [reflexivity | exact H]. Qed.
 Lemma keys_combine_len (ps : list (path * Qc)) (qs : list Qc) : length qs = length ps -> map fst (combine (map fst ps) qs) = map fst ps.
 Proof. intros H. apply map_fst_combine. rewrite map_length. symmetry. exact H. Qed.
+
+Section Keep.
+  Variables (m0 : midline) (kw : kwargs) (m' : midline) (r : args).
+  Hypothesis Hok : mid_set_ok m0 = true.
+  Hypothesis Hnd : NoDup (map fst kw).
+  Hypothesis Hch : andthen (m_set_spread_params m0 [] kw) (fun m1 a1 => m_set_distribution_params m1 a1 kw) = (m', Some r).
+  Hypothesis Hkeys : forall c, In c (map fst kw) -> nform m0 c.
+  Hypothesis Hmk : In ["mixing"] (map fst kw) -> ~ In "mixing" (dkw m0).
+  Let ei := ml_ei m0.
+  Let ec := ml_ec m0.
+  Let nc := ml_nc m0.
+  Let Hok' : mid_names_ok m0 = true. Proof. unfold mid_set_ok in Hok. rewrite !andb_true_iff in Hok. apply Hok. Qed.
+  Let Hei : u_names_ok ei = true. Proof. apply (m_ok_parts m0 Hok'). Qed.
+
+  Lemma kw_absent K c : ~ In K (map fst kw) -> (In c (map fst kw) -> nform m0 c -> c = K) -> kw_get c kw = None.
+  Proof. intros HK H. apply kw_get_In_None. intros Hin. apply HK. rewrite <- (H Hin (Hkeys c Hin)). exact Hin. Qed.
+
+  Ltac cand_solve HK :=
+    let c := fresh "c" in let Hc := fresh "Hc" in let Hcin := fresh "Hcin" in let Hf := fresh "Hf" in
+    intros c Hc; apply (kw_absent _ c HK); intros Hcin Hf; cbn [In] in Hc;
+    repeat (destruct Hc as [<-|Hc];
+            [inversion Hf; subst; try reflexivity; try (nf_solve Hok'); try (exfalso; apply (Hmk Hcin); assumption) |]);
+    destruct Hc.
+
+  Lemma chain_kw_keep :
+    mid_names_ok m' = true /\ ml_midext m' = ml_midext m0 /\
+    map fst (mid_spread_items m' ++ u_dist_items (ml_ei m')) = map fst (mid_spread_items m0 ++ u_dist_items ei) /\
+    (forall K old, ~ In K (map fst kw) -> In (K, old) (mid_spread_items m0 ++ u_dist_items ei) -> In (K, old) (mid_items m')).
+  Proof.
+    destruct (m_ok_parts m0 Hok') as (_ & Hec & Hnc & _ & _ & _ & _ & HbsymL).
+    pose proof (keys_T_nc m0 Hok') as KTnc. pose proof (keys_T_ec m0 Hok') as KTec. pose proof (keys_L_ec m0 Hok') as KLec.
+    fold ei ec nc in KTnc, KTec, KLec.
+    assert (HTi : forall k, In k (map fst (u_tumor_items ei)) -> exists n s, k = [n; s] /\ TNp ei n /\ kind s) by apply T_key.
+    assert (HTn : forall k, In k (map fst (u_tumor_items nc)) -> exists n s, k = [n; s] /\ TNp ei n /\ kind s).
+    { intros k Hk. destruct (T_key _ _ Hk) as (n & s & -> & Hn & Hs). exists n, s. repeat split; [apply (TNp_nc m0 Hok'), Hn | exact Hs]. }
+    assert (HTe : forall k, In k (map fst (u_tumor_items ec)) -> exists n s, k = [n; s] /\ TNp ei n /\ kind s).
+    { intros k Hk. destruct (T_key _ _ Hk) as (n & s & -> & Hn & Hs). exists n, s. repeat split; [apply (TNp_ec m0 n Hok'), Hn | exact Hs]. }
+    assert (HLi : forall k, In k (map fst (u_lnl_items ei)) -> exists n s, k = [n; s] /\ LNp ei n /\ kind s) by apply L_key.
+    assert (HLe : forall k, In k (map fst (u_lnl_items ec)) -> exists n s, k = [n; s] /\ LNp ei n /\ kind s).
+    { intros k Hk. destruct (L_key _ _ Hk) as (n & s & -> & Hn & Hs). exists n, s. repeat split; [apply (LNp_ec m0 Hok'), Hn | exact Hs]. }
+    assert (HDk : forall k, In k (map fst (u_dist_items ei)) -> exists t s, k = [t; s] /\ TS ei t /\ In s (dkw m0)) by apply D_key.
+    (* the distribution block, common to all settings *)
+    assert (HD : forall m2 dsplit dglob ikw ckw dsi K old,
+               unflatten_and_split kw (XD m2) = (dsplit, dglob) -> side_kwargs (obj_kwargs "ext" dsplit dglob) = (ikw, ckw) ->
+               dists_put (u_maxt ei) (u_dists ei) (plan (u_lk ikw) (u_dist_items ei) []) = Some dsi ->
+               ~ In K (map fst kw) -> In (K, old) (u_dist_items ei) -> In (K, old) (dists_items dsi)).
+    { intros m2 dsplit dglob ikw ckw dsi K old HuD Hsk Hdp HK Hin.
+      apply (dist_block_keep _ _ _ _ _ K old Hdp); [reflexivity | reflexivity | exact Hin|].
+      destruct (HDk K (in_items_key _ _ _ Hin)) as (t & s & -> & Ht & Hs). destruct (XD_props m2) as [Hx1 Hx2].
+      apply (n_lk_dist kw Hnd (XD m2) dsplit dglob ikw ckw t s Hx1 Hx2 HuD Hsk). cand_solve HK. }
+    destruct (ml_mixing m0) as [cur|] eqn:Emix.
+    - (* with mixing *)
+      destruct (m_chain_inv_mix m0 [] kw m' r cur Hok Emix Hch)
+        as (split & glob & qI & qC & mix & qE & qLi & qLe & qLn & m2 & dsplit & dglob & ikw & ckw & dsi & Hc).
+      cbv zeta in Hc. fold ei ec nc in Hc. assert (Hif : forall b : bool, (if b then @nil val else []) = []) by (intros []; reflexivity).
+      rewrite ?skipn_nil', ?Hif, ?skipn_nil' in Hc. clear Hif.
+      destruct Hc as (Hu & HqI & HqC & Hmx & HqLi & HqLe & HqLn & HuD & Hsk & Hdp & Hei' & (dsc & Hec' & Hecok) & (dsn & Hnc' & Hncok) & Hmix' & Hd' & Hs' & Hb').
+      assert (Hnames' : mid_names_ok m' = true).
+      { apply (mid_names_ok_final m0 m' qI qLi dsi qE qLe dsc qC qLn dsn _ Hok Hei' Hec' Hnc' Hecok Hncok Hdp); [apply plan_length | exact Hs' | exact Hb']. }
+      split; [exact Hnames'|]. split; [exact Hd'|].
+      destruct (leaf_after_items ei qI qLi dsi) as (I1 & I2 & I3); [apply (plan_lengths _ _ _ _ HqI) | apply (plan_lengths _ _ _ _ HqLi)|].
+      destruct (leaf_after_items nc qC qLn dsn) as (N1 & _ & _); [apply (plan_lengths _ _ _ _ HqC) | apply (plan_lengths _ _ _ _ HqLn)|].
+      pose proof (leaf_after_lnl ec qE qLe dsc (plan_lengths _ _ _ _ HqLe)) as E2.
+      fold (leaf_after ei qI qLi dsi) in Hei'. fold (leaf_after nc qC qLn dsn) in Hnc'. fold (leaf_after ec qE qLe dsc) in Hec'.
+      pose proof (dist_keys_after _ _ _ _ Hdp (plan_length _ _ _)) as KD.
+      unfold mid_items, mid_spread_items. rewrite Hmix', Hs', Emix. unfold m_mixing_item, m_midext_item. rewrite Hmix', Emix.
+      fold ei ec nc. rewrite Hei', Hnc', Hec', I1, I2, I3, N1, E2.
+      destruct (ml_symL m0) eqn:EsymL.
+      + split.
+        { rewrite !map_app, !pre_keys, KD, !keys_combine_len by (eapply plan_lengths; eassumption). reflexivity. }
+        intros K old HK. rewrite ?in_app_iff, ?in_pre_items_iff. cbn [In].
+        intros [[(k & -> & Hk)|[(k & -> & Hk)|[[E|[]]|Hk]]]|Hk].
+        * left. exists k. split; [reflexivity|]. destruct (HTi k (in_items_key _ _ _ Hk)) as (n & s & -> & Hn & Hs).
+          apply (block_keep _ _ _ _ _ HqI Hk). apply (n_lk_side kw Hnd split glob Hu "ipsi" n [s]); [cbn; tauto|]. cand_solve HK.
+        * right. left. exists k. split; [reflexivity|]. destruct (HTn k (in_items_key _ _ _ Hk)) as (n & s & -> & Hn & Hs).
+          apply (block_keep _ _ _ _ _ HqC Hk). apply (n_lk_side kw Hnd split glob Hu "contra" n [s]); [cbn; tauto|]. cand_solve HK.
+        * right. right. left. left. injection E as <- <-.
+          rewrite (n_lk_mixing kw Hnd split glob Hu) in Hmx by (apply kw_get_In_None, HK).
+          cbn [hd_error val_or] in Hmx. apply check_unit_Some in Hmx. destruct Hmx as [[= ->] _]. reflexivity.
+        * right. right. right. left. destruct (HLi K (in_items_key _ _ _ Hk)) as (n & s & -> & Hn & Hs).
+          apply (block_keep _ _ _ _ _ HqLi Hk). apply (n_lk_glob kw Hnd split glob Hu n [s]). cand_solve HK.
+        * right. right. right. right. left. apply (HD m2 dsplit dglob ikw ckw dsi K old HuD Hsk Hdp HK Hk).
+      + split.
+        { rewrite ?pre_app, !map_app, !pre_keys, KD, !keys_combine_len by (eapply plan_lengths; eassumption). reflexivity. }
+        intros K old HK. rewrite ?pre_app, ?in_app_iff, ?in_pre_items_iff. cbn [In].
+        intros [[[(k & -> & Hk)|(k & -> & Hk)]|[[(k & -> & Hk)|(k & -> & Hk)]|[E|[]]]]|Hk].
+        * left. left. exists k. split; [reflexivity|]. destruct (HTi k (in_items_key _ _ _ Hk)) as (n & s & -> & Hn & Hs).
+          apply (block_keep _ _ _ _ _ HqI Hk). apply (n_lk_side kw Hnd split glob Hu "ipsi" n [s]); [cbn; tauto|]. cand_solve HK.
+        * left. right. exists k. split; [reflexivity|]. destruct (HLi k (in_items_key _ _ _ Hk)) as (n & s & -> & Hn & Hs).
+          apply (block_keep _ _ _ _ _ HqLi Hk). apply (n_lk_side kw Hnd split glob Hu "ipsi" n [s]); [cbn; tauto|]. cand_solve HK.
+        * right. left. left. exists k. split; [reflexivity|]. destruct (HTn k (in_items_key _ _ _ Hk)) as (n & s & -> & Hn & Hs).
+          apply (block_keep _ _ _ _ _ HqC Hk). apply (n_lk_side kw Hnd split glob Hu "contra" n [s]); [cbn; tauto|]. cand_solve HK.
+        * right. left. right. exists k. split; [reflexivity|]. destruct (HLe k (in_items_key _ _ _ Hk)) as (n & s & -> & Hn & Hs).
+          apply (block_keep _ _ _ _ _ HqLe Hk). apply (n_lk_side kw Hnd split glob Hu "contra" n [s]); [cbn; tauto|]. cand_solve HK.
+        * right. right. left. left. injection E as <- <-.
+          rewrite (n_lk_mixing kw Hnd split glob Hu) in Hmx by (apply kw_get_In_None, HK).
+          cbn [hd_error val_or] in Hmx. apply check_unit_Some in Hmx. destruct Hmx as [[= ->] _]. reflexivity.
+        * right. right. right. left. apply (HD m2 dsplit dglob ikw ckw dsi K old HuD Hsk Hdp HK Hk).
+    - (* without mixing *)
+      destruct (m_chain_inv_nomix m0 [] kw m' r Hok Emix Hch)
+        as (split & glob & nsplit & esplit & ng & eg & qI & qC & qE & qLi & qLe & qLn & m2 & dsplit & dglob & ikw & ckw & dsi & Hc).
+      cbv zeta in Hc. fold ei ec nc in Hc.
+      assert (Hif : forall b : bool, (if b then @nil val else []) = []) by (intros []; reflexivity).
+      rewrite ?skipn_nil', ?Hif, ?skipn_nil' in Hc. clear Hif.
+      destruct Hc as (Hu & Hun & Hue & HqI & HqC & HqE & HqLi & HqLe & HqLn & HuD & Hsk & Hdp & Hei' & (dsc & Hec' & Hecok) & (dsn & Hnc' & Hncok) & Hmix' & Hd' & Hs' & Hb').
+      assert (Hnames' : mid_names_ok m' = true).
+      { apply (mid_names_ok_final m0 m' qI qLi dsi qE qLe dsc qC qLn dsn _ Hok Hei' Hec' Hnc' Hecok Hncok Hdp); [apply plan_length | exact Hs' | exact Hb']. }
+      split; [exact Hnames'|]. split; [exact Hd'|].
+      destruct (leaf_after_items ei qI qLi dsi) as (I1 & I2 & I3); [apply (plan_lengths _ _ _ _ HqI) | apply (plan_lengths _ _ _ _ HqLi)|].
+      destruct (leaf_after_items nc qC qLn dsn) as (N1 & _ & _); [apply (plan_lengths _ _ _ _ HqC) | apply (plan_lengths _ _ _ _ HqLn)|].
+      destruct (leaf_after_items ec qE qLe dsc) as (E1 & E2 & _); [apply (plan_lengths _ _ _ _ HqE) | apply (plan_lengths _ _ _ _ HqLe)|].
+      fold (leaf_after ei qI qLi dsi) in Hei'. fold (leaf_after nc qC qLn dsn) in Hnc'. fold (leaf_after ec qE qLe dsc) in Hec'.
+      pose proof (dist_keys_after _ _ _ _ Hdp (plan_length _ _ _)) as KD.
+      unfold mid_items, mid_spread_items. rewrite Hmix', Hs', Emix. unfold m_midext_item.
+      fold ei ec nc. rewrite Hei', Hnc', Hec', I1, I2, I3, N1, E1, E2.
+      destruct (ml_symL m0) eqn:EsymL.
+      + split.
+        { rewrite !map_app, !pre_keys, KD, !keys_combine_len by (eapply plan_lengths; eassumption). reflexivity. }
+        intros K old HK. rewrite ?in_app_iff, ?in_pre_items_iff. cbn [In].
+        intros [[(k & -> & Hk)|[(k & -> & Hk)|[(k & -> & Hk)|Hk]]]|Hk].
+        * left. exists k. split; [reflexivity|]. destruct (HTi k (in_items_key _ _ _ Hk)) as (n & s & -> & Hn & Hs).
+          apply (block_keep _ _ _ _ _ HqI Hk). apply (n_lk_side kw Hnd split glob Hu "ipsi" n [s]); [cbn; tauto|]. cand_solve HK.
+        * right. left. exists k. split; [reflexivity|]. destruct (HTn k (in_items_key _ _ _ Hk)) as (n & s & -> & Hn & Hs).
+          apply (block_keep _ _ _ _ _ HqC Hk). apply (n_lk_nested kw Hnd split glob Hu "noext" nsplit ng n [s]); [tauto | exact Hun|]. cand_solve HK.
+        * right. right. left. exists k. split; [reflexivity|]. destruct (HTe k (in_items_key _ _ _ Hk)) as (n & s & -> & Hn & Hs).
+          apply (block_keep _ _ _ _ _ HqE Hk). apply (n_lk_nested kw Hnd split glob Hu "ext" esplit eg n [s]); [tauto | exact Hue|]. cand_solve HK.
+        * right. right. right. left. destruct (HLi K (in_items_key _ _ _ Hk)) as (n & s & -> & Hn & Hs).
+          apply (block_keep _ _ _ _ _ HqLi Hk). apply (n_lk_glob kw Hnd split glob Hu n [s]). cand_solve HK.
+        * right. right. right. right. left. apply (HD m2 dsplit dglob ikw ckw dsi K old HuD Hsk Hdp HK Hk).
+      + split.
+        { rewrite ?pre_app, !map_app, !pre_keys, KD, !keys_combine_len by (eapply plan_lengths; eassumption). reflexivity. }
+        intros K old HK. rewrite ?pre_app, ?in_app_iff, ?in_pre_items_iff. cbn [In].
+        intros [[[(k & -> & Hk)|(k & -> & Hk)]|[(k & -> & Hk)|[(k & -> & Hk)|(k & -> & Hk)]]]|Hk].
+        * left. left. exists k. split; [reflexivity|]. destruct (HTi k (in_items_key _ _ _ Hk)) as (n & s & -> & Hn & Hs).
+          apply (block_keep _ _ _ _ _ HqI Hk). apply (n_lk_side kw Hnd split glob Hu "ipsi" n [s]); [cbn; tauto|]. cand_solve HK.
+        * left. right. exists k. split; [reflexivity|]. destruct (HLi k (in_items_key _ _ _ Hk)) as (n & s & -> & Hn & Hs).
+          apply (block_keep _ _ _ _ _ HqLi Hk). apply (n_lk_side kw Hnd split glob Hu "ipsi" n [s]); [cbn; tauto|]. cand_solve HK.
+        * right. left. exists k. split; [reflexivity|]. destruct (HTn k (in_items_key _ _ _ Hk)) as (n & s & -> & Hn & Hs).
+          apply (block_keep _ _ _ _ _ HqC Hk). apply (n_lk_nested kw Hnd split glob Hu "noext" nsplit ng n [s]); [tauto | exact Hun|]. cand_solve HK.
+        * right. right. left. exists k. split; [reflexivity|]. destruct (HTe k (in_items_key _ _ _ Hk)) as (n & s & -> & Hn & Hs).
+          apply (block_keep _ _ _ _ _ HqE Hk). apply (n_lk_nested kw Hnd split glob Hu "ext" esplit eg n [s]); [tauto | exact Hue|]. cand_solve HK.
+        * right. right. right. left. exists k. split; [reflexivity|]. destruct (HLe k (in_items_key _ _ _ Hk)) as (n & s & -> & Hn & Hs).
+          apply (block_keep _ _ _ _ _ HqLe Hk). apply (n_lk_side kw Hnd split glob Hu "contra" n [s]); [cbn; tauto|]. cand_solve HK.
+        * right. right. right. right. left. apply (HD m2 dsplit dglob ikw ckw dsi K old HuD Hsk Hdp HK Hk).
+  Qed.
+End Keep.
+
+(** [nform] depends on the model only through ext.ipsi, the LNL flag and the presence of mixing *)
+Lemma nform_ext m1 m2 c : ml_ei m1 = ml_ei m2 -> ml_symL m1 = ml_symL m2 -> ml_mixing m1 = ml_mixing m2 ->
+  nform m1 c -> nform m2 c.
+Proof.
+  intros He Hs Hm H. destruct H; unfold dkw in *; rewrite ?He, ?Hs, ?Hm in *;
+    [ apply NF_ipsiT | apply NF_ipsiL | apply NF_contraT | apply NF_contraL | apply NF_mixing | apply NF_noext | apply NF_ext
+    | apply NF_lnl | apply NF_dist | apply NF_midext ]; assumption.
+Qed.
+
+(** a literal keyword reads its value afterwards (instance of keyword-over-positional; the
+    child-prefixed distribution keywords are no reported names) *)
+Lemma lit_dist_name_plain m kw K : mid_names_ok m = true -> NoDup (map fst kw) ->
+  (forall c, In c (map fst kw) -> nform m c) -> In K (map fst (u_dist_items (ml_ei m))) -> dist_name_plain kw K.
+Proof.
+  intros Hok' Hnd Hkeys HD. destruct (D_key _ _ HD) as (t & k & -> & Ht & Hk).
+  assert (Hno : forall c, (nform m c -> False) -> kw_last c kw = None).
+  { intros c Hc. rewrite (kw_last_NoDup _ _ Hnd). apply kw_get_In_None. intros Hin. apply Hc, Hkeys, Hin. }
+  repeat split; apply Hno; intros Hf; inversion Hf; subst; nf_solve Hok'.
+Qed.
+Lemma mid_kw_value m kw K q : mid_set_ok m = true -> NoDup (map fst kw) ->
+  (forall c, In c (map fst kw) -> In c (map fst (mid_items m))) -> kw_get K kw = Some (V q) ->
+  let r := m_set_params m [] kw in snd r <> None -> option_map (kw_get K) (m_got (fst r)) = Some (Some q).
+Proof.
+  intros Hok Hnd Hsub Hkw.
+  assert (Hok' : mid_names_ok m = true) by (unfold mid_set_ok in Hok; rewrite !andb_true_iff in Hok; apply Hok).
+  assert (HKin : In K (map fst kw)) by (apply in_items_key with (v := V q), kw_get_Some_In, Hkw).
+  apply (mid_keyword_over_positional m [] kw K q Hok Hnd (Hsub K HKin) Hkw).
+  apply lit_dist_name_plain; [exact Hok' | exact Hnd|]. intros c Hc. apply (mid_nform m c Hok'), Hsub, Hc.
+Qed.
+
+(** * Keyword-only [Midline.set_params] with literal parameter names: complete description
+      of what [get_params] reports afterwards *)
+Lemma mid_kw_only m kw m' r : mid_set_ok m = true -> NoDup (map fst kw) ->
+  (forall c, In c (map fst kw) -> In c (map fst (mid_items m))) ->
+  (In ["mixing"] (map fst kw) -> ~ In "mixing" (dkw m)) ->
+  m_set_params m [] kw = (m', Some r) ->
+  mid_names_ok m' = true /\ map fst (mid_items m') = map fst (mid_items m) /\
+  (forall K q, kw_get K kw = Some (V q) -> kw_get K (mid_items m') = Some q) /\
+  (forall K old, In (K, old) (mid_items m) -> ~ In K (map fst kw) -> kw_get K (mid_items m') = Some old).
+Proof.
+  intros Hok Hnd Hsub Hmk Hset.
+  assert (Hok' : mid_names_ok m = true) by (unfold mid_set_ok in Hok; rewrite !andb_true_iff in Hok; apply Hok).
+  assert (Hkeys : forall c, In c (map fst kw) -> nform m c) by (intros c Hc; apply (mid_nform m c Hok'), Hsub, Hc).
+  (* values of the keywords: keyword over positional *)
+  assert (Hvals : forall m1, mid_names_ok m1 = true -> m_set_params m [] kw = (m1, Some r) ->
+                   forall K q, kw_get K kw = Some (V q) -> kw_get K (mid_items m1) = Some q).
+  { intros m1 Hn1 Hset1 K q Hkw. pose proof (mid_kw_value m kw K q Hok Hnd Hsub Hkw) as Hv. cbv zeta in Hv.
+    rewrite Hset1 in Hv. cbn [fst snd] in Hv. specialize (Hv ltac:(discriminate)).
+    rewrite (m_got_spec m1 Hn1) in Hv. cbn [option_map] in Hv. injection Hv as Hv. exact Hv. }
+  rewrite (m_set_params_unfold m [] kw Hok') in Hset.
+  rewrite popat_nil in Hset by (rewrite mid_items_split, !app_length; cbn [m_midext_item length]; lia).
+  cbv beta iota zeta in Hset.
+  set (mp := match kw_get ["midext"; "prob"] kw with Some v => Some v | None => None end) in *.
+  assert (H0 : exists m0, match mp with None => Some m | Some v => option_map (ml_with_midext m) (check_unit v) end = Some m0
+                          /\ mid_set_ok m0 = true /\ ml_ei m0 = ml_ei m /\ mid_spread_items m0 = mid_spread_items m
+                          /\ ml_symL m0 = ml_symL m /\ ml_mixing m0 = ml_mixing m
+                          /\ (kw_get ["midext"; "prob"] kw = None -> ml_midext m0 = ml_midext m)).
+  { destruct mp as [vm|] eqn:Emp.
+    - destruct (check_unit vm) as [x|] eqn:Ex; [|discriminate Hset]. exists (ml_with_midext m x).
+      split; [reflexivity|]. split; [exact Hok|]. repeat split.
+      intros Hn. unfold mp in Emp. rewrite Hn in Emp. discriminate.
+    - exists m. repeat split. exact Hok. }
+  destruct H0 as (m0 & E0 & Hok0 & Hei0 & Hsp0 & Hs0 & Hm0 & Hme0). rewrite E0 in Hset. cbn [app] in Hset.
+  assert (Hkeys0 : forall c, In c (map fst kw) -> nform m0 c).
+  { intros c Hc. apply (nform_ext m m0); [symmetry; exact Hei0 | symmetry; exact Hs0 | symmetry; exact Hm0 | apply Hkeys, Hc]. }
+  assert (Hmk0 : In ["mixing"] (map fst kw) -> ~ In "mixing" (dkw m0)) by (unfold dkw; rewrite Hei0; exact Hmk).
+  destruct (chain_kw_keep m0 kw m' r Hok0 Hnd Hset Hkeys0 Hmk0) as (Hn' & Hd' & Hk' & Hkeep).
+  rewrite Hsp0, Hei0 in Hk', Hkeep.
+  split; [exact Hn'|]. split.
+  { rewrite !mid_items_split, !app_assoc. rewrite (map_app fst (mid_spread_items m' ++ _)), (map_app fst (mid_spread_items m ++ _)), Hk'. reflexivity. }
+  split.
+  { apply (Hvals m' Hn'). rewrite (m_set_params_unfold m [] kw Hok').
+    rewrite popat_nil by (rewrite mid_items_split, !app_length; cbn [m_midext_item length]; lia).
+    cbv beta iota zeta. fold mp. rewrite E0. exact Hset. }
+  intros K old Hin HK. apply kw_get_NoDup_In; [apply mid_items_NoDup, Hn'|].
+  rewrite mid_items_split, app_assoc, in_app_iff in Hin. destruct Hin as [Hin|Hin].
+  - apply Hkeep; assumption.
+  - cbn in Hin. destruct Hin as [E|[]]. injection E as <- <-.
+    rewrite mid_items_split, !in_app_iff. right. right. left. unfold m_midext_item.
+    rewrite Hd', Hme0; [reflexivity|]. apply kw_get_In_None, HK.
+Qed.
+
+(** * Statements *)
+(** the one hypothesis beyond well-formedness: if "mixing" is declared, no distribution
+    keyword is itself called "mixing" (otherwise the global keyword "mixing" also reaches the
+    distribution parameter "t_mixing": see [C17_midline_mixing_keyword_refuted_stmt]) *)
+Definition mixing_kw_ok (ml : midline) (named : list path) : Prop :=
+  In ["mixing"] named -> ~ In "mixing" (dist_kw_names (u_dists (ml_ei ml))).
+
+(** Midline analogue of [C17_literal_subset_roundtrip_stmt] (all four use_mixing x LNL
+    symmetry settings, with or without central / unknown models, every graph, NO hypothesis
+    on the current values or on the synchronisation of the sub-models).  [covered m] is
+    replaced by [mid_set_ok ml] (the C10 well-formedness of the four leaves of ext / noext;
+    implied by [Safe.m_names_ok], true of every constructed object); added: [mixing_kw_ok]. *)
+Definition C17_midline_literal_subset_roundtrip_stmt : Prop :=
+  forall ml named qs s' its,
+    mid_set_ok ml = true -> param_items (MMid ml) = Some its -> NoDup named -> incl named (map fst its) ->
+    length qs = length named -> mixing_kw_ok ml named ->
+    set_named_params (mk_nstate (MMid ml) (Some named)) (vals qs) [] = (s', inr tt) ->
+    get_named_params s' = inr (combine named qs) /\ get_num_dims s' = inr (length named) /\
+    exists its', param_items (ns_model s') = Some its' /\ map fst its' = map fst its /\
+      (forall n q, In (n, q) (combine named qs) -> kw_get n its' = Some q) /\
+      (forall k old, In (k, old) its -> ~ In k named -> kw_get k its' = Some old).
+
+(** the four hypotheses of the general C17 theorems hold for a literal subset
+    ([names_consistent] is about [cands], which is not defined for Midline) *)
+Definition C17_midline_literal_subset_hyps_stmt : Prop :=
+  forall ml named, mid_names_ok ml = true -> incl named (map fst (mid_items ml)) -> mixing_kw_ok ml named ->
+    (forall n p, In n named -> In p (map fst (mid_items ml)) -> does_contain_in_order p n = true -> p = n)
+    /\ no_ties (map fst (mid_items ml)) named = true
+    /\ each_owns (map fst (mid_items ml)) named = true /\ each_matches (map fst (mid_items ml)) named = true.
+
+(** instance of the class-generic [C17_extra_keyword_raises_stmt] *)
+Definition C17_midline_extra_keyword_raises_stmt : Prop :=
+  forall ml np a kw k, mid_names_ok ml = true -> In k (map fst kw) ->
+    ~ In k (match np with Some l => l | None => map fst (mid_items ml) end) ->
+    let s := mk_nstate (MMid ml) np in
+    set_named_params s a kw = (s, inl ExtraParamsError)
+    /\ safe_set_params s (GDict kw) = (s, inl ExtraParamsError)
+    /\ likelihood_outcome s (GDict kw) = (s, Raised ExtraParamsError)
+    /\ Raised ExtraParamsError <> MinusInf.
+
+(** Midline analogue of [Safe.C12_{uni,bi}_named_subset_scored_stmt], in the vocabulary of
+    Safe.v ([m_names_ok], [m_names]) *)
+Definition C12_midline_named_subset_scored_stmt : Prop :=
+  forall R (lik : model -> R) m names v g, m_names_ok m = true -> NoDup names -> incl names (m_names m) ->
+    length v = length names -> both_forms names (vals v) g ->
+    let r := likelihood_given R lik (Some names) (MMid m) g in
+    snd r = LMinusInf \/
+    (snd r = LVal (lik (fst r)) /\
+     forall k q, In (k, q) (combine names v) -> option_map (kw_get k) (param_items (fst r)) = Some (Some q)).
+(** ... and, when scored, every parameter outside the declared names is scored at its
+    previous value *)
+Definition C12_midline_named_subset_untouched_stmt : Prop :=
+  forall R (lik : model -> R) m names v g, m_names_ok m = true -> NoDup names -> incl names (m_names m) ->
+    length v = length names -> both_forms names (vals v) g -> mixing_kw_ok m names ->
+    let r := likelihood_given R lik (Some names) (MMid m) g in
+    snd r = LVal (lik (fst r)) ->
+    option_map (map fst) (param_items (fst r)) = Some (m_names m) /\
+    forall k old, In (k, old) (m_items m) -> ~ In k names -> option_map (kw_get k) (param_items (fst r)) = Some (Some old).
+
+(** * Proofs *)
+Lemma combine_vals_get (named : list path) qs n q : NoDup named -> In (n, q) (combine named qs) ->
+  kw_get n (combine named (vals qs)) = Some (V q).
+Proof. intros Hnd Hin. apply kw_get_NoDup_In; [apply combine_keys_NoDup, Hnd | apply in_combine_vals, Hin]. Qed.
+Lemma combine_vals_keys (named : list path) qs : length qs = length named -> map fst (combine named (vals qs)) = named.
+Proof. intros H. apply map_fst_combine. rewrite vals_length. symmetry. exact H. Qed.
+
+Theorem midline_literal_subset_hyps : C17_midline_literal_subset_hyps_stmt.
+Proof.
+  intros ml named Hok Hincl Hmk.
+  assert (Hlit : forall n p, In n named -> In p (map fst (mid_items ml)) -> does_contain_in_order p n = true -> p = n).
+  { intros n p Hn Hp Hd. symmetry. apply (nform_lit ml n p Hok).
+    - intros ->. apply Hmk, Hn.
+    - apply (mid_nform ml n Hok), Hincl, Hn.
+    - apply (mid_nform ml p Hok), Hp.
+    - apply does_contain_in_order_spec, Hd. }
+  split; [exact Hlit|]. repeat split.
+  - unfold no_ties. apply forallb_forall. intros k Hk. apply forallb_forall. intros n1 H1. apply forallb_forall. intros n2 H2.
+    destruct (does_contain_in_order k n1) eqn:E1; [|reflexivity]. destruct (does_contain_in_order k n2) eqn:E2; [|reflexivity].
+    rewrite <- (Hlit n1 k H1 Hk E1), <- (Hlit n2 k H2 Hk E2), path_eqb_refl. apply Bool.implb_true_r.
+  - unfold each_owns. apply forallb_forall. intros n Hn. apply existsb_exists. exists n. split; [apply Hincl, Hn|].
+    rewrite dcio_refl. cbn [andb]. apply forallb_forall. intros n' Hn'.
+    destruct (does_contain_in_order n n') eqn:E; [|reflexivity].
+    rewrite (Hlit n' n Hn' (Hincl _ Hn) E). cbn [implb]. apply Nat.leb_refl.
+  - unfold each_matches. apply forallb_forall. intros n Hn. apply existsb_exists. exists n. split; [apply Hincl, Hn | apply dcio_refl].
+Qed.
+
+Theorem midline_literal_subset_roundtrip : C17_midline_literal_subset_roundtrip_stmt.
+Proof.
+  intros ml named qs s' its Hok Hits Hnd Hincl Hlen Hmk H.
+  assert (Hok' : mid_names_ok ml = true) by (unfold mid_set_ok in Hok; rewrite !andb_true_iff in Hok; apply Hok).
+  assert (Eits : its = mid_items ml) by (rewrite (mid_param_items ml Hok') in Hits; injection Hits as <-; reflexivity). subst its.
+  destruct (set_named_inv (MMid ml) named (vals qs) [] s' _ Hits H) as (_ & m1 & rest & Hset & ->).
+  assert (Ekw : named_kwargs named (vals qs) [] = combine named (vals qs)).
+  { unfold named_kwargs. cbn [kw_update fold_left]. apply dict_of_NoDup_id, combine_keys_NoDup, Hnd. }
+  rewrite Ekw in Hset. cbn [set_params] in Hset. destruct (m_set_params ml [] (combine named (vals qs))) as [ml' o] eqn:Eset.
+  injection Hset as <- ->.
+  assert (Hkeys : map fst (combine named (vals qs)) = named) by (apply combine_vals_keys, Hlen).
+  destruct (mid_kw_only ml (combine named (vals qs)) ml' rest Hok) as (Hn' & Hk' & Hval & Hkeep); try exact Eset.
+  { rewrite Hkeys. exact Hnd. }
+  { rewrite Hkeys. exact Hincl. }
+  { rewrite Hkeys. exact Hmk. }
+  rewrite Hkeys in Hkeep.
+  assert (Hvals : forall n q, In (n, q) (combine named qs) -> kw_get n (mid_items ml') = Some q)
+    by (intros n q Hin; apply Hval, combine_vals_get; assumption).
+  cbn [ns_model mk_nstate].
+  assert (Hget : get_named_params (mk_nstate (MMid ml') (Some named)) = inr (combine named qs)).
+  { unfold get_named_params, named_params. cbn [ns_model ns_named mk_nstate].
+    rewrite (mid_param_items ml' Hn'), (param_names_items _ _ (mid_param_items ml' Hn')). f_equal.
+    apply lit_get_named_items; try assumption.
+    - apply mid_items_NoDup, Hn'.
+    - rewrite Hk'. exact Hincl.
+    - rewrite Hk'. apply (midline_literal_subset_hyps ml named Hok' Hincl Hmk). }
+  split; [exact Hget|]. split.
+  { unfold get_num_dims. rewrite Hget, combine_length, Hlen, Nat.min_id. reflexivity. }
+  exists (mid_items ml'). split; [apply mid_param_items, Hn'|]. split; [exact Hk'|]. split; [exact Hvals | exact Hkeep].
+Qed.
+
+Theorem midline_extra_keyword_raises : C17_midline_extra_keyword_raises_stmt.
+Proof.
+  intros ml np a kw k Hok Hin Hni s.
+  apply (extra_keyword_raises s a kw (match np with Some l => l | None => map fst (mid_items ml) end) k); [|exact Hin | exact Hni].
+  unfold named_params, s. cbn [ns_model ns_named mk_nstate]. rewrite (param_names_items _ _ (mid_param_items ml Hok)). reflexivity.
+Qed.
+
+(** C12: both forms of a proposal for the declared names are the same keyword-only call *)
+Lemma path_mem_In k l : In k l -> path_mem k l = true.
+Proof. intros H. apply (proj2 (memp_In k l)), H. Qed.
+Lemma mid_named_given R (lik : model -> R) m names v g : mid_names_ok m = true -> NoDup names ->
+  length v = length names -> both_forms names (vals v) g ->
+  likelihood_given R lik (Some names) (MMid m) g =
+  (MMid (fst (m_set_params m [] (combine names (vals v)))),
+   match snd (m_set_params m [] (combine names (vals v))) with
+   | Some _ => LVal (lik (MMid (fst (m_set_params m [] (combine names (vals v))))))
+   | None => LMinusInf
+   end).
+Proof.
+  intros Hok Hnd Hlen Hg.
+  assert (Hkeys : map fst (combine names (vals v)) = names) by (apply combine_vals_keys, Hlen).
+  assert (Hset : forall a kw, forallb (fun k => path_mem k names) (map fst kw) = true ->
+            kw_update kw (dict_of (combine names a)) = combine names (vals v) ->
+            Safe.set_named_params (Some names) (MMid m) a kw =
+            (MMid (fst (m_set_params m [] (combine names (vals v)))),
+             match snd (m_set_params m [] (combine names (vals v))) with Some _ => SetOk | None => SetValueError end)).
+  { intros a kw Hf Hk. unfold Safe.set_named_params, Safe.named_params.
+    rewrite (param_names_items _ _ (mid_param_items m Hok)), Hf, Hk. cbn [set_params].
+    destruct (m_set_params m [] (combine names (vals v))) as [m' [r|]]; reflexivity. }
+  unfold likelihood_given, Safe.safe_set_params. destruct Hg as [-> | ->].
+  - rewrite (Hset (vals v) []); [|reflexivity|].
+    + destruct (snd (m_set_params m [] (combine names (vals v)))); reflexivity.
+    + cbn [kw_update fold_left]. apply dict_of_NoDup_id, combine_keys_NoDup, Hnd.
+  - rewrite (Hset [] (combine names (vals v))).
+    + destruct (snd (m_set_params m [] (combine names (vals v)))); reflexivity.
+    + rewrite Hkeys. apply forallb_forall. intros k Hk. apply path_mem_In, Hk.
+    + replace (combine names (@nil val)) with (@nil (path * val)) by (destruct names; reflexivity).
+      change (kw_update (combine names (vals v)) (dict_of [])) with (dict_of (combine names (vals v))).
+      apply dict_of_NoDup_id. rewrite Hkeys. exact Hnd.
+Qed.
+
+Theorem midline_named_subset_scored : C12_midline_named_subset_scored_stmt.
+Proof.
+  intros R lik m names v g Hsafe Hnd Hincl Hlen Hg r. subst r.
+  pose proof (safe_set_ok_mid m Hsafe) as Hok. pose proof (safe_names_ok_mid m Hsafe) as Hok'.
+  unfold m_names in Hincl. rewrite safe_items_mid in Hincl.
+  rewrite (mid_named_given R lik m names v g Hok' Hnd Hlen Hg). cbn [fst snd].
+  destruct (snd (m_set_params m [] (combine names (vals v)))) as [rest|] eqn:Eo; [right | left; reflexivity].
+  split; [reflexivity|]. intros k q Hin.
+  apply (mid_kw_value m (combine names (vals v)) k q Hok).
+  - rewrite combine_vals_keys by exact Hlen. exact Hnd.
+  - rewrite combine_vals_keys by exact Hlen. exact Hincl.
+  - apply combine_vals_get; assumption.
+  - rewrite Eo. discriminate.
+Qed.
+
+Theorem midline_named_subset_untouched : C12_midline_named_subset_untouched_stmt.
+Proof.
+  intros R lik m names v g Hsafe Hnd Hincl Hlen Hg Hmk r. subst r.
+  pose proof (safe_set_ok_mid m Hsafe) as Hok. pose proof (safe_names_ok_mid m Hsafe) as Hok'.
+  unfold m_names in *. rewrite safe_items_mid in *.
+  rewrite (mid_named_given R lik m names v g Hok' Hnd Hlen Hg). cbn [fst snd].
+  destruct (m_set_params m [] (combine names (vals v))) as [m' [rest|]] eqn:Eset; cbn [fst snd]; [|discriminate]. intros _.
+  assert (Hkeys : map fst (combine names (vals v)) = names) by (apply combine_vals_keys, Hlen).
+  destruct (mid_kw_only m (combine names (vals v)) m' rest Hok) as (Hn' & Hk' & _ & Hkeep); try exact Eset.
+  { rewrite Hkeys. exact Hnd. }
+  { rewrite Hkeys. exact Hincl. }
+  { rewrite Hkeys. exact Hmk. }
+  rewrite Hkeys in Hkeep. rewrite (mid_param_items m' Hn'). cbn [option_map]. split; [rewrite Hk'; reflexivity|].
+  intros k old Hin Hni. rewrite (Hkeep k old Hin Hni). reflexivity.
+Qed.
+
+(** * [mixing_kw_ok] is needed: a distribution keyword called "mixing" *)
+(** observation: in a Midline with the mixing parameter whose "late" distribution has a
+    keyword "mixing", the declared name "mixing" also sets "late_mixing" (the keyword
+    travels to every distribution as a global name), although that parameter is not declared *)
+Definition C17_midline_mixing_keyword_refuted_stmt : Prop :=
+  exists (ml : midline) (named : list path) (qs : list Qc) (k : path),
+    m_names_ok ml = true /\ NoDup named /\ length qs = length named /\ ~ In k named /\
+    option_map (fun ns => forallb (fun n => memp n ns) named) (param_names (MMid ml)) = Some true /\
+    ~ mixing_kw_ok ml named /\
+    let r := set_named_params (mk_nstate (MMid ml) (Some named)) (vals qs) [] in
+    snd r = inr tt /\
+    option_map (fun l => option_map qout (kw_get k l)) (param_items (MMid ml)) = Some (Some (1, 3)%Z) /\
+    option_map (fun l => option_map qout (kw_get k l)) (param_items (ns_model (fst r))) = Some (Some (1, 4)%Z).
+
+Definition C17_mix_g : graph := force_graph (build_graph 2 [ (("tumor", "T"), CList ["II"]); (("lnl", "II"), CList []) ]).
+Definition C17_mix_mid : midline :=
+  new_midline (new_uni C17_mix_g [("late", Param 0 [("mixing", qc 1 3)])] 3) true false false false true.
+Theorem midline_mixing_keyword_refuted : C17_midline_mixing_keyword_refuted_stmt.
+Proof.
+  exists C17_mix_mid, [["mixing"]], [qc 1 4], ["late"; "mixing"].
+  split; [vm_compute; reflexivity|]. split; [repeat constructor; intros []|]. split; [reflexivity|].
+  split; [intros [H|[]]; discriminate H|]. split; [vm_compute; reflexivity|].
+  split; [intros H; apply H; [left; reflexivity | vm_compute; left; reflexivity]|].
+  cbv zeta. split; [vm_compute; reflexivity|]. split; vm_compute; reflexivity.
+Qed.
